@@ -9,6 +9,7 @@
   the padding windows) are asked again on every call.  `_divide_*` keeps nothing.
 -/
 import Ptk.Model.C12
+import Ptk.Model.C12Steps
 namespace Ptk.C12
 
 /-- one call: the current attributes of the split, the identities of the current children, their
@@ -34,10 +35,14 @@ def lookup (c : Cache) (call : Call) : Align × Dim :=
 /-- one `_divide_heights` (`horizontal`) / `_divide_widths` call on the shared object -/
 def callSplit (fuel : Nat) (horizontal : Bool) (filler : Dim) (c : Cache) (call : Call) :
     Cache × Outcome :=
-  let ap := lookup c call
-  (some (call.ids, ap.1, ap.2),
-   if horizontal then divideH fuel ap.1 filler ap.2 call.dims call.avail call.done
-   else divideV fuel ap.1 filler ap.2 call.dims call.avail)
+  -- `HSplit._divide_heights` starts with `if not self.children: return []`: `_all_children` (and
+  -- with it the cache) is not touched; `VSplit._divide_widths` reads `_all_children` first
+  if horizontal && call.dims.isEmpty then (c, .ok [])
+  else
+    let ap := lookup c call
+    (some (call.ids, ap.1, ap.2),
+     if horizontal then divideH fuel ap.1 filler ap.2 call.dims call.avail call.done
+     else divideV fuel ap.1 filler ap.2 call.dims call.avail)
 
 /-- a whole session on one object -/
 def runSession (fuel : Nat) (horizontal : Bool) (filler : Dim) : Cache → List Call → List Outcome
@@ -50,5 +55,18 @@ def runSession (fuel : Nat) (horizontal : Bool) (filler : Dim) : Cache → List 
 def fresh (fuel : Nat) (horizontal : Bool) (filler : Dim) (call : Call) : Outcome :=
   if horizontal then divideH fuel call.al filler call.pad call.dims call.avail call.done
   else divideV fuel call.al filler call.pad call.dims call.avail
+
+/-- one call, run with the fuel that `Ptk.Props.C12Fuel.divide_terminates_bound` proves sufficient
+    for the `_all_children` list this call really divides (cached alignment / padding) -/
+def callSplitB (horizontal : Bool) (filler : Dim) (c : Cache) (call : Call) : Cache × Outcome :=
+  let ap := lookup c call
+  callSplit (fuelBound (allChildren ap.1 filler ap.2 call.dims) call.avail) horizontal filler c call
+
+/-- a whole session, every call with its own proved fuel (what the driver runs) -/
+def runSessionB (horizontal : Bool) (filler : Dim) : Cache → List Call → List Outcome
+  | _, [] => []
+  | c, call :: rest =>
+    let r := callSplitB horizontal filler c call
+    r.2 :: runSessionB horizontal filler r.1 rest
 
 end Ptk.C12
